@@ -339,14 +339,18 @@ pub(in crate::sql) fn except(
 
         // join_cond must be a join over all columns
         // (this could be loosened to check only the relation key)
-        let (join_left, join_right) = collect_equals(join_cond)?;
+        let Some((join_left, join_right)) = collect_equals(join_cond)? else {
+            continue;
+        };
         if !all_in(&top, join_left) || !all_in(&bottom, join_right) {
             continue;
         }
 
         // filter has to check for nullability of bottom
         // (this could be loosened to check only for nulls in a previously non-nullable column)
-        let (filter_left, filter_right) = collect_equals(filter)?;
+        let Some((filter_left, filter_right)) = collect_equals(filter)? else {
+            continue;
+        };
         if !(all_in(&bottom, filter_left) && all_null(filter_right)) {
             continue;
         }
@@ -429,7 +433,9 @@ pub(in crate::sql) fn intersect(
 
         // join_cond must be a join over all columns
         // (this could be loosened to check only the relation key)
-        let (left, right) = collect_equals(join_cond)?;
+        let Some((left, right)) = collect_equals(join_cond)? else {
+            continue;
+        };
         if !(all_in(&top, left) && all_in(&bottom, right)) {
             continue;
         }
@@ -505,8 +511,9 @@ fn all_null(exprs: Vec<&Expr>) -> bool {
 }
 
 /// Converts `(a == b) and ((c == d) and (e == f))`
-/// into `([a, c, e], [b, d, f])`
-fn collect_equals(expr: &Expr) -> Result<(Vec<&Expr>, Vec<&Expr>)> {
+/// into `([a, c, e], [b, d, f])`.
+/// Returns `None` when the expression contains anything but equalities joined by `and`.
+fn collect_equals(expr: &Expr) -> Result<Option<(Vec<&Expr>, Vec<&Expr>)>> {
     let mut lefts = Vec::new();
     let mut rights = Vec::new();
 
@@ -516,18 +523,22 @@ fn collect_equals(expr: &Expr) -> Result<(Vec<&Expr>, Vec<&Expr>)> {
             rights.push(&args[1]);
         }
         ExprKind::Operator { name, args } if name == "std.and" && args.len() == 2 => {
-            let (l, r) = collect_equals(&args[0])?;
+            let Some((l, r)) = collect_equals(&args[0])? else {
+                return Ok(None);
+            };
             lefts.extend(l);
             rights.extend(r);
 
-            let (l, r) = collect_equals(&args[1])?;
+            let Some((l, r)) = collect_equals(&args[1])? else {
+                return Ok(None);
+            };
             lefts.extend(l);
             rights.extend(r);
         }
-        _ => (),
+        _ => return Ok(None),
     }
 
-    Ok((lefts, rights))
+    Ok(Some((lefts, rights)))
 }
 
 fn col_refs(exprs: Vec<&Expr>) -> Vec<CId> {
